@@ -50,6 +50,23 @@ def send_scenario(name, tx, rx, transport, timeo, hwm, size, n, reader_start=220
                                             {"op": "mark", "name": "tx_done"}]}]}
 
 
+def paced_scenario(name, transport, hwm, size, n, tx_pace_us, rx_pace_us, batch=None):
+    """the reader is slower than the sender but never stops: the HWM gate of the session stays open most of the
+    time, and what is buffered between the two applications must still stay within the bound"""
+    ep = S.endpoint(transport, name)
+    txo = [S.i32(S.SNDHWM, hwm), S.i32(S.SNDTIMEO, 0)] + ([S.i32(SNDBUF, 65536)] if transport == "tcp" else [])
+    rxo = [S.i32(S.RCVHWM, hwm)] + ([S.i32(RCVBUF, 65536)] if transport == "tcp" else [])
+    if batch:
+        txo.append(S.i32(S.SNDBATCH_COUNT, batch))
+    return {"name": name, "deadline_ms": 90000, "meta": {"timeo": 0, "hwm": hwm, "size": size, "kind": "paced", "transport": transport},
+            "sockets": [{"name": "tx", "type": "PUSH", "opts": txo}, {"name": "rx", "type": "PULL", "opts": rxo}],
+            "tasks": [{"name": "rx", "ops": [{"op": "bind", "sock": "rx", "ep": ep, "save": "ep"}, {"op": "barrier", "name": "go", "parties": 2},
+                                            {"op": "recv_n", "sock": "rx", "n": n, "timeout_ms": 1200, "pace_us": rx_pace_us}]},
+                      {"name": "tx", "ops": [{"op": "barrier", "name": "go", "parties": 2}, {"op": "connect", "sock": "tx", "ep": "$ep"}, {"op": "sleep", "ms": 300},
+                                            {"op": "send_n", "sock": "tx", "prefix": "a", "n": n, "sizes": [size], "pace_us": tx_pace_us},
+                                            {"op": "mark", "name": "tx_done"}]}]}
+
+
 def recv_scenario(name, tx, rx, transport, timeo):
     ep = S.endpoint(transport, name)
     rxo = [S.i32(S.RCVTIMEO, timeo)] + ([[S.SUBSCRIBE, "str", ""]] if rx == "SUB" else [])
@@ -113,6 +130,11 @@ def run(ctx):
     for hwm in ([1, 4, 32, 256] if thorough else [1, 32]):
         scs.append(send_scenario("bound-h%d-tcp" % hwm, "PUSH", "PULL", "tcp", -1, hwm, 100000, 4 * hwm + 150 if hwm < 100 else 1400))
     scs.append(send_scenario("bound-h8-small-tcp", "PUSH", "PULL", "tcp", -1, 8, 2000, 1500))
+    scs.append(paced_scenario("paced-h32-tcp", "tcp", 32, 1000, 5000, 250, 1000, batch=4))
+    scs.append(paced_scenario("paced-h200-ipc", "ipc", 200, 1000, 6000, 250, 800, batch=4))
+    if thorough:
+        scs.append(paced_scenario("paced-h8-tcp", "tcp", 8, 4000, 4000, 300, 1500))
+        scs.append(paced_scenario("paced-h64-tcp-b16", "tcp", 64, 500, 8000, 150, 600, batch=16))
     for (tx, rx) in [("PUSH", "PULL"), ("PUB", "SUB"), ("ROUTER", "DEALER")]:
         for timeo in [0, 300, -1]:
             if tx == "ROUTER":
@@ -127,6 +149,22 @@ def run(ctx):
         rp = {"kind": "recorded-trace", "scenario": sc["name"], "records": [x for x in r["records"] if x.get("ev") in ("ret", "mark")][:200], "hung": r["hung"], "panics": r["panics"]}
         if r["panics"]:
             ctx.violation("C14:panic", "%s: %s" % (sc["name"], r["panics"][0]), rp)
+        if meta["kind"] == "paced":
+            tl = sorted([(x["t"], 1) for x in S.rets(r, "send", sock="tx") if x["res"] == "ok"] + [(x["t"], -1) for x in S.rets(r, "recv", sock="rx") if x["res"] == "ok"])
+            cur = peak = 0
+            for _, d in tl:
+                cur += d
+                peak = max(peak, cur)
+            kernel = math.ceil((4 * 2 * 65536 if meta["transport"] == "tcp" else 4 * 1024 * 1024) / meta["size"])
+            bound = 2 * meta["hwm"] + 2 * meta["hwm"] + 16 + kernel
+            refused = sum(1 for x in S.rets(r, "send", sock="tx") if x["res"] != "ok")
+            ctx.extra.setdefault("backlog_with_a_slow_reader", {})[sc["name"]] = {"peak": peak, "bound": bound, "refused": refused}
+            if peak > bound:
+                ctx.violation("C14:unbounded-buffering:paced:%s" % meta["transport"],
+                              "%s: with SNDHWM=RCVHWM=%d and a reader slower than the sender, up to %d accepted messages of %d bytes were in flight between send() and recv() (bound 2*SNDHWM + 2*RCVHWM + 16 + kernel allowance = %d); %d sends were refused" % (
+                                  sc["name"], meta["hwm"], peak, meta["size"], bound, refused), rp)
+            deliv_runs.append((sc["name"], S.history_to_delivery_trace(r, ["tx"], ["rx"]), rp))
+            continue
         if meta["kind"] == "send":
             sends = S.rets(r, "send", sock="tx")
             for x in sends:
